@@ -32,7 +32,7 @@ def run(ctx):
     if "design" in parts:
         cfgs = ctx.pick([("MountPlan_mc.cfg", 900)],
                         [("MountPlan_mc.cfg", 1800), ("MountPlan_mc_rootfs.cfg", 1800), ("MountPlan_mc_e3.cfg", 3000),
-                         ("MountPlan_mc_thorough.cfg", 3000)])
+                         ("MountPlan_mc_thorough.cfg", 5400)])
         mcs = M.design(ctx, cfgs, workers)
         rev_case = M.reverse_counterexample(ctx, workers)
         ctx.log("MountPlan_rev.cfg: counterexample history %s" % json.dumps(rev_case["updates"]))
@@ -51,9 +51,9 @@ def run(ctx):
     # ---- 2. conformance: real planner / real update loop ---------------------------------------------
     binary = M.build_driver(ctx)
     ctx.log("driver built")
-    summ = M.run_driver(ctx, binary, "real", {"VERIF_ENUM_K": 2, "VERIF_ENUM3_POOL": ctx.pick(0, 8),
+    summ = M.run_driver(ctx, binary, "real", {"VERIF_ENUM_K": 2, "VERIF_ENUM3_POOL": ctx.pick(0, 6),
                                               "VERIF_ENUM_RELATED": ctx.pick(1, 0),
-                                              "VERIF_N": ctx.pick(400, 10000), "VERIF_CHUNK": ctx.pick(1000, 4000)})
+                                              "VERIF_N": ctx.pick(400, 6000), "VERIF_CHUNK": ctx.pick(1000, 4000)})
     ctx.log("real histories: %s" % {k: v for k, v in summ.items() if k != "files"})
     # T->I: TLC's counterexample and simulated behaviours, replayed on the real code
     rp = os.path.join(ctx.subdir("replay_in"), "cases.json")
@@ -108,7 +108,7 @@ def run(ctx):
     coverage = {
         "states": states, "transitions": trans,
         "tlc_runs": mcs,
-        "tlc_constants": {"MaxUpdates": 3, "universe": "quick: 8 entries x <=2 (and <=3 in _e3); thorough: 26 entries x <=2",
+        "tlc_constants": {"MaxUpdates": 3, "universe": "quick: 8 entries x <=2 (and <=3 in _e3); thorough: 19 entries x <=2",
                           "base_tree": "a/ a/b/ a/b/c/ a/f a/l d/ h/ src/"},
         "traces_validated_against_impl": summ["cases"] + rsumm["cases"],
         "real_updates_evaluated_by_tlc": val["lines"],
